@@ -72,6 +72,14 @@ fn main() {
                     std::process::exit(2);
                 }
             };
+            if pid == "C12" {
+                // let descriptor number 0 be available to the kernel's lowest-free allocation
+                // SAFETY: closing stdin, which this program never reads.
+                #[cfg(not(miri))]
+                unsafe {
+                    libc::close(0);
+                }
+            }
             let tier = match arg(&args, "--tier").or_else(|| std::env::var("VERIF_TIER").ok()).as_deref() {
                 Some("thorough") => Tier::Thorough,
                 _ => Tier::Quick,
